@@ -187,6 +187,20 @@ def inst_time_units(cx, iid):
                                            at=b.span_at(loc))
 
 
+def store_cases(b, fa, loc, node):
+    """a store `field = v` where v is a local assigned in several arms (`let x = match .. {..}; self.f = x`) is read as
+    one store per definition of v, each with the facts holding where that value was chosen"""
+    e = show(b.rvalue_expr(node["rv"]))
+    m = re.fullmatch(r"var(\d+)", e)
+    if m and len(b.defs.get(int(m.group(1)), [])) > 1:
+        out = []
+        for dloc, kind, dn in b.defs[int(m.group(1))]:
+            v = show(b.rvalue_expr(dn["rv"])) if kind == "assign" else show(b.call_expr(dn))
+            out.append((dloc, v, fa.at(dloc) if fa else None))
+        return out
+    return [(loc, e, fa.at(loc) if fa else None)]
+
+
 def inst_rate_floor(cx, iid):
     R = cx.R
     with cx.instance(iid, "T2/T7 floor", "every write of the allowed rate outside the constructor is floored (or is the ceiling clamp); halvings are max(X/2, floor)", floor=6) as inst:
@@ -215,18 +229,18 @@ def inst_rate_floor(cx, iid):
                 if node["k"] != "assign":
                     inst.violation(b.path, "send_rate write", "send_rate assigned from a call result without a floor", at=b.span_at(l))
                     continue
-                e = show(b.rvalue_expr(node["rv"]))
                 n += 1
-                form = None
-                for rx, nm in OKF:
-                    if re.fullmatch(rx, e):
-                        form = nm
-                        break
-                inst.site(b, l, "send_rate = %s" % e[:80], {"form": form})
-                if form is None:
-                    inst.violation(b.path, "send_rate write without floor", "allowed rate is set to `%s`, which is none of the RFC 5348 update forms (receive-rate limit as a cap, s/64 or W_init/R as a floor)" % e[:160], at=b.span_at(l))
-                if "div(arg1.send_rate,2)" in e and not re.fullmatch(r"Ord::max\(div\(arg1\.send_rate,2\),half_connection::send_rate::MINIMUM_RATE\)", e):
-                    inst.violation(b.path, "halving", "a halving of the rate is not max(X/2, s/64): `%s`" % e[:120], at=b.span_at(l))
+                for l_, e, _alts in store_cases(b, None, l, node):
+                    form = None
+                    for rx, nm in OKF:
+                        if re.fullmatch(rx, e):
+                            form = nm
+                            break
+                    inst.site(b, l_, "send_rate = %s" % e[:80], {"form": form})
+                    if form is None:
+                        inst.violation(b.path, "send_rate write without floor", "allowed rate is set to `%s`, which is none of the RFC 5348 update forms (receive-rate limit as a cap, s/64 or W_init/R as a floor)" % e[:160], at=b.span_at(l_))
+                    if "div(arg1.send_rate,2)" in e and not re.fullmatch(r"Ord::max\(div\(arg1\.send_rate,2\),half_connection::send_rate::MINIMUM_RATE\)", e):
+                        inst.violation(b.path, "halving", "a halving of the rate is not max(X/2, s/64): `%s`" % e[:120], at=b.span_at(l_))
         if n < 5:
             inst.violation("half_connection::send_rate::SendRateComp", "send_rate writes", "fewer send_rate writes than counted by hand (anchor)")
         # recv_limit = 2*max(X_recv_set) unless the loss rate increased (RFC 5348 4.3 step 4)
@@ -272,17 +286,17 @@ def inst_update_guards(cx, iid):
         for l, node, ps in b.field_writes(r"arg1\.send_rate"):
             if node["k"] != "assign":
                 continue
-            e = show(b.rvalue_expr(node["rv"]))
-            for rx, nm, guard in want:
-                if re.fullmatch(rx, e):
-                    seen.add(nm)
-                    alts = fa.at(l) or []
-                    bad = [a for a in alts if not alt_satisfies(a, guard)]
-                    inst.site(b, l, "%s update under %s" % (nm, " & ".join(g.replace("\\", "") for g in guard))[:150])
-                    if bad or not alts:
-                        inst.violation(b.path, nm + " update guard", "the %s update of the allowed rate is reachable without its RFC 5348 condition (%s)" % (nm, " and ".join(g.replace("\\", "") for g in guard)[:200]),
-                                       at=b.span_at(l), detail={"facts_on_offending_path": sorted(bad[0]) if bad else []})
-                    break
+            for l2, e, alts_ in store_cases(b, fa, l, node):
+                for rx, nm, guard in want:
+                    if re.fullmatch(rx, e):
+                        seen.add(nm)
+                        alts = alts_ or []
+                        bad = [a for a in alts if not alt_satisfies(a, guard)]
+                        inst.site(b, l2, "%s update under %s" % (nm, " & ".join(g.replace("\\", "") for g in guard))[:150])
+                        if bad or not alts:
+                            inst.violation(b.path, nm + " update guard", "the %s update of the allowed rate is reachable without its RFC 5348 condition (%s)" % (nm, " and ".join(g.replace("\\", "") for g in guard)[:200]),
+                                           at=b.span_at(l2), detail={"facts_on_offending_path": sorted(bad[0]) if bad else []})
+                        break
         for nm in ("first loss", "doubling", "first feedback", "equation"):
             if nm not in seen:
                 inst.violation(b.path, nm + " update", "handle_feedback has no %s update of the allowed rate (anchor / C14.c form)" % nm)
